@@ -2,7 +2,7 @@
 G1 (secure-group conventions: C28)."""
 import ast
 
-from .core import AnalysisError, iter_nodes, norm
+from .core import AnalysisError, iter_nodes, norm, cnorm, cnorm_text
 from . import astq
 from .astq import parents, ancestors, calls_named, definitions, enclosing_ifs, enclosing_loops, const_int, attr_tail, resolve_value
 from .linform import Lin, to_lin
@@ -347,45 +347,85 @@ def rule_PF1(ctx, rep):
     else:
         rep.bad('PF1', call, dig[0] if dig else call.qualname, 'the expansion is not a hash/XOF of exactly key || input', call.node)
     # every produced element is reduced modulo the bound (or is the constant 0 for bound 1)
-    its = [s for s in iter_nodes(call.node) if isinstance(s, ast.Assign) and norm(s.targets[0]) == 'iterable']
-    if len(its) < 2:
-        raise AnalysisError('PF1: alternatives for `iterable` not found in PRF.__call__')
-    bound_names = {'self.max'} | {norm(s.targets[0]) for s in iter_nodes(call.node) if isinstance(s, ast.Assign) and norm(s.value) == 'self.max'}
+    from . import sem, routes
     pm = parents(call.node)
-    for s in its:
-        v = s.value
-        if isinstance(v, ast.Tuple) and not v.elts:
-            rep.ok('PF1', call, s, 'no values requested: empty result')
+    gens = [g for g in iter_nodes(call.node) if isinstance(g, (ast.GeneratorExp, ast.ListComp))]
+    if len(gens) < 2:
+        raise AnalysisError('PF1: the generators producing the values were not found in PRF.__call__')
+
+    def is_bound(e):
+        return norm(routes.xp(call, e, e, pm)) == 'self.max'
+
+    def is_blocklen(e):
+        e2 = routes.xp(call, e, e, pm)
+        if isinstance(e2, ast.NamedExpr):
+            e2 = e2.value
+        return norm(e2) == 'self.byte_length'
+    nprod = 0
+    for g in gens:
+        e = g.elt
+        if isinstance(e, ast.Constant) and e.value == 0:
+            nprod += 1
+            cx = sem._ctx_of(call, g, pm)
+            if ('self.byte_length', False) in cx or ('0 == self.byte_length', True) in cx or ('self.byte_length == 0', True) in cx:
+                rep.ok('PF1', call, g, 'bound 1: the only value in range(1) is 0')
+            else:
+                rep.bad('PF1', call, g, 'constant 0 outputs outside the byte_length == 0 (bound 1) case')
             continue
-        if isinstance(v, ast.GeneratorExp):
-            e = v.elt
-            if isinstance(e, ast.Constant) and e.value == 0:
-                g = [norm(i.test) for i, br in enclosing_ifs(s, pm, stop=call.node) if br == 'body']
-                if any('byte_length' in t or t.startswith('not (l :=') for t in g):
-                    rep.ok('PF1', call, s, 'bound 1: the only value in range(1) is 0')
-                else:
-                    rep.bad('PF1', call, s, 'constant 0 outputs outside the byte_length == 0 (bound 1) case')
-                continue
-            if isinstance(e, ast.BinOp) and isinstance(e.op, ast.Mod) and norm(e.right) in bound_names:
-                fb = [c for c in ast.walk(e.left) if isinstance(c, ast.Call) and 'from_bytes' in norm(c.func)]
-                rng = v.generators[0].iter
-                if fb and isinstance(rng, ast.Call) and attr_tail(rng.func) == 'range' and len(rng.args) == 3:
-                    rep.ok('PF1', call, s, 'every value is a block of the digest reduced modulo the bound; one block per requested value')
-                    continue
-            rep.bad('PF1', call, s, f'values produced by `{norm(e)[:80]}` are not reduced modulo the bound: outputs can fall outside range(bound)')
+        fb = [c for c in ast.walk(e) if isinstance(c, ast.Call) and 'from_bytes' in norm(c.func)]
+        if not fb:
             continue
-        rep.bad('PF1', call, s, 'unrecognised alternative for the produced values')
-    # count: n_ = 1 if n is None else n ; shape -> prod(shape)
-    cnt = [s for s in iter_nodes(call.node) if isinstance(s, ast.Assign) and norm(s.targets[0]) == 'n_']
-    if cnt and norm(cnt[0].value) == '1 if n is None else n' and any(isinstance(s, ast.Assign) and norm(s.value) == 'prod(shape)' for s in iter_nodes(call.node)):
-        rep.ok('PF1', call, cnt[0], 'exactly n values (1 for n=None, prod(shape) for a shape)')
+        nprod += 1
+        if isinstance(e, ast.BinOp) and isinstance(e.op, ast.Mod) and is_bound(e.right) and any(c is x for c in fb for x in ast.walk(e.left)):
+            rng = g.generators[0].iter
+            sl = [x for x in ast.walk(e.left) if isinstance(x, ast.Subscript) and isinstance(x.slice, ast.Slice)]
+            okb = False
+            if isinstance(rng, ast.Call) and attr_tail(rng.func) == 'range' and len(rng.args) == 3 and sl and dig:
+                # one block of l bytes per value; n_ * l bytes digested
+                step_ok = is_blocklen(rng.args[2])
+                stop = cnorm(sem.symx(routes.xp(call, rng.args[1], g, pm)))
+                dlen = cnorm(sem.symx(routes.xp(call, dig[0].args[0], dig[0], pm))) if dig[0].args else None
+                iv = norm(g.generators[0].target)
+                lo, hi = sl[0].slice.lower, sl[0].slice.upper
+                width_ok = lo is not None and hi is not None and norm(lo) == iv and isinstance(hi, ast.BinOp) and isinstance(hi.op, ast.Add) and \
+                    ((norm(hi.left) == iv and is_blocklen(hi.right)) or (norm(hi.right) == iv and is_blocklen(hi.left)))
+                okb = step_ok and width_ok and stop == dlen and const_int(rng.args[0]) == 0
+            if okb:
+                rep.ok('PF1', call, g, 'every value is a block of the digest reduced modulo the bound; one block per requested value')
+            else:
+                rep.bad('PF1', call, g, 'the digest is not cut into consecutive blocks of byte_length bytes, one per requested value')
+        else:
+            rep.bad('PF1', call, g, f'values produced by `{norm(e)[:80]}` are not reduced modulo the bound: outputs can fall outside range(bound)')
+    if nprod < 2:
+        raise AnalysisError('PF1: alternatives for the produced values not found in PRF.__call__')
+    # count: 1 if n is None else n ; shape -> prod(shape)
+    npar = call.params[2]
+    cnts = [c for c in ast.walk(call.node) if isinstance(c, ast.Call) and attr_tail(c.func) == 'range' and len(c.args) == 1]
+    good = False
+    for c in cnts:
+        gv = sem.guarded_values(call, c.args[0], c, pm)
+        vals = {(tuple(sorted(x for x in cx if x[0] in (f'None is {npar}', f'{npar} is None'))), norm(v)) for cx, v in gv}
+        want = {(((f'None is {npar}', True),), '1'), (((f'None is {npar}', False),), npar)}
+        want2 = {(((f'{npar} is None', True),), '1'), (((f'{npar} is None', False),), npar)}
+        if vals in (want, want2):
+            good = True
+    shp = any(isinstance(s_, ast.Assign) and norm(s_.targets[0]) == npar and isinstance(s_.value, ast.Call) and attr_tail(s_.value.func) == 'prod' for s_ in iter_nodes(call.node))
+    if good and shp:
+        rep.ok('PF1', call, cnts[0], 'exactly n values (1 for n=None, prod(shape) for a shape)')
     else:
         rep.bad('PF1', call, call.qualname, 'the number of produced values is not "1 if n is None else n" / prod(shape)', call.node)
-    rets = [r for r in iter_nodes(call.node) if isinstance(r, ast.Return)]
-    if rets and norm(rets[-1].value) == 'x[0] if n is None else x':
+    rets = [r for r in iter_nodes(call.node) if isinstance(r, ast.Return) and r.value is not None]
+    rv = set()
+    for r in rets:
+        for cx, v in sem.guarded_values(call, r.value, r, pm, ctx=sem._ctx_of(call, r, pm), follow=False):
+            rv.add((tuple(sorted(x for x in cx if 'None' in x[0] and npar in x[0])), norm(v)))
+    keys = {k for k, v in rv}
+    scal = [v for k, v in rv if k and k[0][1] is True]
+    seq = [v for k, v in rv if k and k[0][1] is False]
+    if len(rv) == 2 and len(scal) == 1 and len(seq) == 1 and scal[0] == f'{seq[0]}[0]':
         rep.ok('PF1', call, rets[-1], 'scalar for n=None, sequence/array otherwise')
     else:
-        rep.bad('PF1', call, rets[-1] if rets else call.qualname, 'return value is not `x[0] if n is None else x`', call.node)
+        rep.bad('PF1', call, rets[-1] if rets else call.qualname, f'return value is not `x[0] if {npar} is None else x`', call.node)
     # __init__: byte length covers bound-1, extra key-length bytes exactly for non powers of two
     bl = [s for s in iter_nodes(init.node) if isinstance(s, ast.Assign) and norm(s.targets[0]) == 'self.byte_length']
     ex = [i for i in iter_nodes(init.node) if isinstance(i, ast.If) and any(isinstance(x, ast.AugAssign) and norm(x.target) == 'self.byte_length' for x in i.body)]
